@@ -1,6 +1,6 @@
 (* Generic driver for the extracted model (trusted, property-independent).
    stdin : one case per line, space-separated decimal integers: <entry> <input...>
-   stdout: one line per case, the characters whose code points [dispatch] returns. *)
+   stdout: one line per case, the characters whose code points [model_dispatch] returns. *)
 open Model
 
 let rec pos_of_int i =
@@ -20,7 +20,7 @@ let () =
        match List.map int_of_string toks with
        | [] -> Buffer.add_char buf '\n'
        | id :: inp ->
-         let out = dispatch (z_of_int id) (List.map z_of_int inp) in
+         let out = model_dispatch (z_of_int id) (List.map z_of_int inp) in
          List.iter (fun z ->
              let c = int_of_z z in
              if c >= 32 && c < 127 then Buffer.add_char buf (Char.chr c)
